@@ -402,7 +402,7 @@ func (x *Exec) finish(st *State, res Val, pos token.Pos) {
 	if con == nil {
 		return
 	}
-	for k, en := range con.Ensures {
+	for k, en := range append(append([]*Clause(nil), con.Ensures...), con.Proves...) {
 		g, err := env.evalBool(en.E)
 		if err != nil {
 			x.errorf("ensures %q: %v", en.Src, err)
@@ -412,6 +412,10 @@ func (x *Exec) finish(st *State, res Val, pos token.Pos) {
 	}
 	if con.HasMod {
 		x.frameCheck(st, st.entry, x.entryTargets, x.entryWhole, "frame", nil)
+	}
+	// C05 L2: every function returns with the lock set it was entered with
+	if cur, ok := st.ghost["locks"]; ok && cur != st.entry.G(x, "locks") && !x.entryWhole["ghost:locks"] {
+		x.emit(st, "ghost", "ghost.locks", eq(cur, st.entry.G(x, "locks")), []string{"C05", "C18"}, "the function returns with exactly the locks it was entered with", pos)
 	}
 }
 
